@@ -1,4 +1,5 @@
 import SdbModel.Model.Conc
+import SdbModel.Model.SerialExec
 import SdbModel.Generated.Protocol
 import Driver.Util
 /-! driver suite `sched` (C02, C05, C10, ordering clauses of C06/C19): the
@@ -8,11 +9,79 @@ open Sdb Sdb.Conc
 
 def P : Protocol := Gen.protocol
 
+instance : Inhabited Serial.State := ⟨{}⟩
+
+/-- besides Model.Conc the driver replays every run on Model.Serial (the model the
+    theorems of C02 / C05 / C06 / C10 are about): each scheduler step of a writer is
+    translated into the Serial events it amounts to (read off the state change), the
+    events must be enabled in `Serial.stepFn`, and the two states must agree on the
+    committed counters and the lock owners.  A failure is appended to the
+    observation, so it shows up as a broken correspondence. -/
 structure S where
   st : State := {}
   names : List (Nat × Nat) := []
   nextName : Nat := 1
+  ser : Serial.State := {}
+  serIdx : Array (Option Nat) := #[]     -- Conc thread ↦ Serial transaction (none: registration thread)
+  serRev : Array Nat := #[]              -- Serial transaction ↦ Conc thread
+  serCommit : Array Bool := #[]
+  serFinal : Array Bool := #[]           -- store / abort already replayed
+  serBroken : Bool := false
   deriving Inhabited
+
+def lockOrder (tabs : List Nat) : List Nat :=
+  let tabs' := if P.writeTxn.contains .dedupTables then dedup tabs else tabs
+  if P.lockSortsBySeq then sortNat tabs' else tabs'
+
+def serSpawn (s : S) (tabs : List Nat) (commit : Bool) : S × String :=
+  if s.serBroken then ({ s with serIdx := s.serIdx.push none, serCommit := s.serCommit.push commit, serFinal := s.serFinal.push false }, "") else
+  match Serial.stepFn s.ser (.spawn (lockOrder tabs) commit) with
+  | some ser =>
+    ({ s with ser, serIdx := s.serIdx.push (some s.serRev.size), serRev := s.serRev.push s.serIdx.size,
+              serCommit := s.serCommit.push commit, serFinal := s.serFinal.push false }, "")
+  | none =>
+    ({ s with serBroken := true, serIdx := s.serIdx.push none, serCommit := s.serCommit.push commit, serFinal := s.serFinal.push false },
+     s!" !serial:lock-order-not-ascending {lockOrder tabs}")
+
+def serNoTxn (s : S) : S :=
+  { s with serIdx := s.serIdx.push none, serCommit := s.serCommit.push false, serFinal := s.serFinal.push true }
+
+def replay (ser : Serial.State) : List Serial.Ev → Except String Serial.State
+  | [] => .ok ser
+  | e :: es => match Serial.stepFn ser e with
+    | some ser' => replay ser' es
+    | none => .error e.str
+
+def serStep (s : S) (k : Nat) (before after : State) : S × String :=
+  if s.serBroken then (s, "") else
+  match (s.serIdx[k]?).join with
+  | none => (s, "")
+  | some i =>
+    let tabs := List.range (max before.root.length after.root.length)
+    let own (st : State) (t : Nat) : Bool := st.lockOwner.getD t none == some k
+    let acq := tabs.filter fun t => !own before t && own after t
+    let rel := tabs.filter fun t => own before t && !own after t
+    let thB := before.threads.getD k default
+    let thA := after.threads.getD k default
+    let loaded := thB.oldRoot.isEmpty && !thA.oldRoot.isEmpty
+    let stored := decide (before.root ≠ after.root)
+    let finished := !thB.done && thA.done
+    let commit := s.serCommit.getD k true
+    let fin := s.serFinal.getD k false
+    let endEv : List Serial.Ev := if commit then [.store i] else [.abort i]
+    let e1 := acq.map (Serial.Ev.acquire i ·) ++ (if loaded then [Serial.Ev.load i] else [])
+    let needEnd := !fin && ((stored && commit) || !rel.isEmpty || finished)
+    let e2 := if needEnd then endEv else []
+    let e3 := rel.map (Serial.Ev.release i ·) ++ (if finished then [Serial.Ev.finish i] else [])
+    let s := if needEnd then { s with serFinal := s.serFinal.set! k true } else s
+    match replay s.ser (e1 ++ e2 ++ e3) with
+    | .error ev => ({ s with serBroken := true }, s!" !serial:not-enabled {ev}")
+    | .ok ser =>
+      let bad := tabs.filter fun t =>
+        (getT after.root t).cnt != ser.root t ||
+        (after.lockOwner.getD t none) != ((ser.owner t).bind fun j => s.serRev[j]?)
+      if bad.isEmpty then ({ s with ser }, "")
+      else ({ s with ser, serBroken := true }, s!" !serial:state-differs tables {bad}")
 
 def S.name (s : S) (w : Nat) : S × String :=
   match s.names.find? (·.1 = w) with
@@ -29,25 +98,27 @@ def step (s : S) (ws : List String) : S × String :=
   match ws with
   | ["init", n] =>
     match n.toNat? with
-    | some n => ({ st := initState n }, "ok")
+    | some n => ({ st := initState n }, "ok")  -- fresh Serial state too
     | none => (s, "bad-op")
   | ["writer", tabs, mode, mark, reg] =>
     let st := spawnWriter P s.st (parseList tabs) (mode == "commit") (parseList mark) (parseList reg)
-    ({ s with st }, s!"t{s.st.threads.length}")
+    let (s', msg) := serSpawn s (parseList tabs) (mode == "commit")
+    ({ s' with st }, s!"t{s.st.threads.length}{msg}")
   | ["register", "dup"] =>
-    ({ s with st := spawnRegisterDup P s.st }, s!"t{s.st.threads.length}")
+    ({ serNoTxn s with st := spawnRegisterDup P s.st }, s!"t{s.st.threads.length}")
   | ["register"] =>
-    ({ s with st := spawnRegister P s.st }, s!"t{s.st.threads.length}")
+    ({ serNoTxn s with st := spawnRegister P s.st }, s!"t{s.st.threads.length}")
   | ["step", k] =>
     match k.toNat? with
     | some k =>
       let (st, label) := Conc.step s.st k
+      let (s, msg) := serStep s k s.st st
       let s := { s with st }
       if label == "done" then
         match (st.threads[k]?).bind (·.result) with
-        | some r => (s, s!"done {showSnap r}")
-        | none => (s, "done")
-      else (s, label)
+        | some r => (s, s!"done {showSnap r}{msg}")
+        | none => (s, s!"done{msg}")
+      else (s, label ++ msg)
     | none => (s, "bad-op")
   | ["read"] => (s, showSnap (readTxn s.st))
   | ["watches"] =>
